@@ -109,7 +109,7 @@ func (s *Spec) Atoms(o LayoutOpts) []Atom {
 			}
 			prevLit = IsLit(t)
 			if i < len(p.Nums) && p.Nums[i] != 0 {
-				add('W', itoa(p.Nums[i]))
+				add('W', p.NumText(i))
 				prevLit = false
 			}
 			if i < len(p.Aliases) && p.Aliases[i] != "" {
